@@ -235,6 +235,6 @@ def enum_cases(ctx: Ctx):
 
 PARTS: list[Part] = [
     enum_part("enumerated", enum_cases, check_body, {"quick": 1, "thorough": 1}),
-    hyp_part("bodies", strat_bodies, check_body, {"quick": 500, "thorough": 25000},
+    hyp_part("bodies", strat_bodies, check_body, {"quick": 800, "thorough": 25000},
              {"quick": 8, "thorough": 16}),
 ]
